@@ -780,6 +780,35 @@ def c05(work, v, tier):
                     rands=[dict(module="Check_Equal", fn="equal", n=4000 if q else 40000, depth=2 if q else 3)])
 
 
+@check("C12")
+def c12(work, v, tier):
+    q = tier == "quick"
+    tables = [("nest-alias", dict(Caps=[0], Kinds=["AND", "LIST"], Vals=["a", "S", "A", "P"], MaxLen=2, InitOpts=[[], ["nnest"]], Fams=["grow", "opts"],
+                                  OptFlags=["nnest"], PushLens=[1, 2], depth=2, walks=200 if q else 2000, wlen=30, fields=C13_FIELDS)),
+              ("xfer-forms", dict(Caps=[0], Vals=["nil", "a"], MaxLen=2, Fams=["grow", "transfer"], PushLens=[1], DstCaps=[0, 2], DstOps=["push"],
+                                  depth=2, walks=200 if q else 2000, wlen=30, fields=C15_FIELDS)),
+              ("cond-alias", dict(machine="cond", KwArgs=["k"], OpArgs=["Eq"], ExArgs=["nil", "s:v", "S", "A", "P", "C"], CFams=["set", "opts"],
+                                  COptFlags=["nnest"], depth=3, walks=200 if q else 2000))]
+    gens = [dict(module="Gen_Render", family="alias", fn="render"),
+            dict(module="Gen_Equal", family="nested", fn="equal"),
+            dict(module="Gen_Codec", family="c04fold", fn="codec"),
+            dict(module="Gen_Traverse", family="d2", fn="traverse", consts=dict(Width=2, MaxPath=3 if q else 4), timeout=3000),
+            dict(module="Gen_Defrag", family="alias", fn="defrag", consts=dict(MaxLen=4 if q else 6, Limits="{0, 2}")),
+            dict(module="Gen_Reveal", family="alias", fn="reveal"),
+            dict(module="Convert", family="all", fn="convert")]
+    return sm_check(work, v, "C12", tier, tables, [], ALL_FIELDS,
+                    ["every specification operator (Render, Canon/Eq, UnmarshalSpec, TraverseSpec, DefragSpec, Reach, Step) ignores the form of a nested node, so "
+                     "alias-equivalence holds in the specification by construction; ConvertSpec: a value converts iff it is a non-zero native / alias / pointer-to-alias"],
+                    "aliases: every generated tree family is instantiated with nested Stacks / Conditions independently replaced by {native, alias, alias with a "
+                    "delegating String method, alias with an UNRELATED String method, pointer to alias}; the parent's String(), IsEqual against the natively built "
+                    "tree in both directions, Unmarshal, Traverse, Defrag, Reveal must give the result the specification gives for the form-erased tree; IsNesting, "
+                    "no-nesting refusal, Condition.Len / SetExpression and Transfer destinations in alias form are covered by state-machine instances with the value "
+                    "classes S / A / P; ConvertStack / ConvertCondition over 17 value classes (zero aliases, nil pointers, unrelated types)",
+                    gens=gens,
+                    rands=[dict(module="Check_Render", fn="render", n=2000 if q else 20000, depth=3, salt=12),
+                           dict(module="Check_Equal", fn="equal", n=2000 if q else 20000, depth=2, salt=12)])
+
+
 def replay(prop, path, work):
     harness = lib.build_harness(work)
     rc, out, _ = lib.run([harness, "replay", path], timeout=300)
